@@ -40,6 +40,7 @@ type vRec struct {
 	St    int               `json:"st"`
 	Res   string            `json:"res"`
 	Panic string            `json:"panic,omitempty"`
+	Obs   map[string]string `json:"obs,omitempty"` // decoded proof fields (model evaluation)
 }
 
 func hx2(b []byte) string { return hex.EncodeToString(b) }
@@ -159,6 +160,19 @@ func runV(f string, a map[string]string) vRec {
 				return
 			}
 			rec.Res = boolRes(c.VerifyAggregateCertificateSignature(unhexList(a["keys"]), unU64List(a["weights"]), cx.ParseU(a["threshold"]), unhex(a["chain"])))
+		case "lisk32.json": // JSON member of type codec.Lisk32 (RPC parameters), then the text conversions
+			var v struct {
+				A codec.Lisk32 `json:"a"`
+			}
+			err := json.Unmarshal(unhex(a["json"]), &v)
+			rec.Res = errRes(err)
+			if err == nil {
+				rec.Res += ":" + v.A.String()[:0] + "ok"
+			}
+		case "lisk32.text":
+			t := string(unhex(a["text"]))
+			_, err := codec.Lisk32ToBytes(t)
+			rec.Res = errRes(err) + ":" + errRes(codec.ValidateLisk32(t))
 		case "SingleCommitValidate":
 			c := &certificate.SingleCommit{}
 			if err := c.Decode(unhex(a["d"])); err != nil {
@@ -180,6 +194,7 @@ func runV(f string, a map[string]string) vRec {
 				rec.Res = "err"
 				return
 			}
+			rec.Obs = map[string]string{"size": cx.U(p.Size), "idxs": u64List(p.Idxs), "sibs": hexList(p.SiblingHashes)}
 			rec.Res = boolRes(rmt.VerifyProof(unhexList(a["hashes"]), p, unhex(a["root"])))
 		case "rmt.CalculateRootFromAppendPath":
 			r := rmt.CalculateRootFromAppendPath(unhex(a["value"]), unhexList(a["path"]), cx.ParseU(a["size"]))
@@ -190,6 +205,7 @@ func runV(f string, a map[string]string) vRec {
 				rec.Res = "err"
 				return
 			}
+			rec.Obs = map[string]string{"size": cx.U(p.Size), "idxs": u64List(p.Idxs), "sibs": hexList(p.SiblingHashes)}
 			_, err := rmt.CalculateRootFromUpdateData(unhexList(a["hashes"]), p)
 			rec.Res = errRes(err)
 		default:
@@ -401,6 +417,30 @@ func genVerifierCases(o *hx.Out, rng *hx.Rng, n int) {
 		}
 	}
 
+	// ---- Lisk32 texts from JSON / RPC: non-ASCII runes, invalid UTF-8, wrong lengths, at every position class
+	{
+		good, _ := codec.BytesToLisk32(bytes.Repeat([]byte{0x42}, 20))
+		texts := []string{"", good, "lsk", good[:40], good + "z", "LSK" + good[3:]}
+		for _, bad := range []string{"\u00e9", "\u20ac", "\U0001f600", "\xff", "\xc3", "\x80", "\x00", "\x7f", " ", "1"} {
+			for _, pos := range []int{0, 3, 4, 20, 34, 35, 40} {
+				t := []byte(good)
+				// keep the byte length at 41 where possible: overwrite as many bytes as the replacement has
+				if pos+len(bad) <= len(t) {
+					copy(t[pos:], bad)
+				} else {
+					t = append(t[:pos], bad...)
+				}
+				texts = append(texts, string(t))
+			}
+		}
+		for _, t := range texts {
+			put("lisk32.text", map[string]string{"text": hx2([]byte(t))})
+			js, _ := json.Marshal(map[string]string{"a": t})
+			put("lisk32.json", map[string]string{"json": hx2(js)})
+			put("lisk32.json", map[string]string{"json": hx2([]byte("{\"a\":\"" + t + "\"}"))}) // raw bytes inside the JSON string
+		}
+	}
+
 	// ---- BLS: special points next to valid ones
 	genBLSMatrix(rng, put)
 
@@ -439,7 +479,7 @@ func genVerifierCases(o *hx.Out, rng *hx.Rng, n int) {
 			p.Queries = append(p.Queries, &smt.QueryProof{Key: qk, Value: val, Bitmap: bm})
 		}
 		for s := rng.Intn(5); s > 0; s-- {
-			p.SiblingHashes = append(p.SiblingHashes, rng.Bytes([]int{32, 32, 0, 31}[rng.Intn(4)]))
+			p.SiblingHashes = append(p.SiblingHashes, rng.Bytes([]int{32, 32, 0, 31, 33, 64, 65}[rng.Intn(7)]))
 		}
 		if rng.Intn(5) == 0 && len(keys) > 0 {
 			keys = keys[:len(keys)-1]
@@ -473,6 +513,26 @@ func genVerifierCases(o *hx.Out, rng *hx.Rng, n int) {
 				a := map[string]string{"hashes": hexList(hashes), "proof": hx2(p.Encode()), "root": hx2(h32(9))}
 				put("rmt.VerifyProof", a)
 				put("rmt.CalculateRootFromUpdateData", a)
+			}
+		}
+	}
+	// sibling / query hashes of every length on paths that are really walked (small trees, genuine leaf indexes)
+	for _, size := range []uint64{2, 3, 4, 5, 8} {
+		h := uint64(1)
+		for (uint64(1) << (h - 1)) < size {
+			h++
+		}
+		for leaf := uint64(0); leaf < size && leaf < 3; leaf++ {
+			for _, hl := range []int{0, 1, 31, 32, 33, 63, 64, 65, 100} {
+				for _, ql := range []int{32, 33, 0} {
+					p := &rmt.Proof{Size: size, Idxs: []uint64{(uint64(1) << (h - 1)) + leaf}}
+					for q := uint64(0); q < h; q++ {
+						p.SiblingHashes = append(p.SiblingHashes, bytes.Repeat([]byte{byte(0x30 + q)}, hl))
+					}
+					a := map[string]string{"hashes": hx2(bytes.Repeat([]byte{7}, ql)), "proof": hx2(p.Encode()), "root": hx2(h32(9))}
+					put("rmt.VerifyProof", a)
+					put("rmt.CalculateRootFromUpdateData", a)
+				}
 			}
 		}
 	}
